@@ -614,9 +614,8 @@ enum Op18 {
 
 fn c18_gen(t: &mut Tape) -> (usize, Vec<Op18>) {
     let h = *t.pick(&HS);
-    let n = 4 + t.usize_below(36);
     let mut ops = Vec::new();
-    for _ in 0..n {
+    while t.next_slot() {
         let op = match t.weighted(&[6, 1, 4, 1, 1, 2, 4, 2, 1]) {
             0 => Op18::Append(gen_rec(t, false)),
             1 => Op18::FlushWriter,
@@ -896,7 +895,9 @@ impl Check for C18 {
     fn plan(&self, tier: Tier) -> Plan {
         Plan {
             cases: if tier == Tier::Quick { 4000 } else { 120_000 },
-            max_tape: 260,
+            max_tape: 10,
+            min_slots: 5,
+            max_slots: 41,
             shard_cases: if tier == Tier::Quick { 250 } else { 2500 },
             max_shrink_iters: 3000,
             ..Plan::default()
